@@ -232,4 +232,76 @@ func ZZ_C09_ListTxtMd() {
 	}
 	vf_Assert(md == wantMd, "md-encodes-exactly-the-relation")
 	vf_Observe("rows", len(rows))
+
+	// dot (the plain list report): one node per workload of the analysis grouped by namespace, one node per IP range /
+	// the ingress controller that takes part in a connection, one edge per entry labelled with its connection
+	if !exposure {
+		ca.outputFormat = "dot"
+		dot, err := ca.ConnectionsListToString(conns)
+		vf_Assert(err == nil, "dot-rendered")
+		vf_Assert(dot == zzDotReference(conns, ca.peersList), "dot-encodes-exactly-the-relation")
+	}
+}
+
+// zzDotReference: the dot text of a list report, written from the layout of the format (not from the formatter's helpers)
+func zzDotReference(conns []Peer2PeerConnection, peers []Peer) string {
+	q := func(s string) string { return "\"" + s + "\"" } // no peer name or connection text of the worlds needs escaping
+	node := func(p Peer) (line string, external bool) {
+		if p.IsPeerIPType() {
+			return "\t" + q(p.String()) + " [label=" + q(p.String()) + " color=\"red2\" fontcolor=\"red2\"]", true
+		}
+		if p.String() == "{ingress-controller}" {
+			return "\t" + q(p.String()) + " [label=" + q(p.String()) + " color=\"blue\" fontcolor=\"blue\"]", true
+		}
+		return "\t" + q(p.String()) + " [label=" + q(p.Name()+"["+p.Kind()+"]") + " color=\"blue\" fontcolor=\"blue\"]", false
+	}
+	seen := map[string]bool{}
+	byNs := map[string][]string{}
+	var external, edges []string
+	add := func(p Peer) {
+		if seen[p.String()] {
+			return
+		}
+		seen[p.String()] = true
+		l, ext := node(p)
+		if ext {
+			external = append(external, l)
+		} else {
+			byNs[p.Namespace()] = append(byNs[p.Namespace()], "\t"+l)
+		}
+	}
+	for _, c := range conns {
+		w := "1"
+		if c.Src().String() <= c.Dst().String() {
+			w = "0.5"
+		}
+		edges = append(edges, "\t"+q(c.Src().String())+" -> "+q(c.Dst().String())+" [label="+q(GetConnectionSetFromP2PConnection(c).String())+
+			" color=\"gold2\" fontcolor=\"darkgreen\" weight="+w+"]")
+		add(c.Src())
+		add(c.Dst())
+	}
+	for _, p := range peers {
+		if !p.IsPeerIPType() {
+			add(p)
+		}
+	}
+	var nss []string
+	for ns := range byNs {
+		nss = append(nss, ns)
+	}
+	sort.Strings(nss)
+	lines := []string{"digraph {"}
+	for _, ns := range nss {
+		ls := byNs[ns]
+		sort.Strings(ls)
+		lines = append(lines, "\tsubgraph \"cluster_"+strings.ReplaceAll(ns, "-", "_")+"\" {", "\t\tcolor=\"black\"", "\t\tfontcolor=\"black\"")
+		lines = append(lines, ls...)
+		lines = append(lines, "\t\tlabel=\""+ns+"\"", "\t}")
+	}
+	sort.Strings(external)
+	sort.Strings(edges)
+	lines = append(lines, external...)
+	lines = append(lines, edges...)
+	lines = append(lines, "}")
+	return strings.Join(lines, "\n")
 }
